@@ -233,7 +233,7 @@ fn run_seq(sc: &Scenario, sid: u64) -> SeqOutcome {
                         if nonlast_drop_seen { "emit-after-non-last-handle-drop".to_string() } else { "accepted-never-delivered".to_string() },
                     ),
                     "delivery" => (
-                        vec!["C09"],
+                        vec!["C09", "C08"],
                         "R4",
                         if queue_len_at_last_drop.is_some() && queue_len_at_last_drop == sc.cap { "queue-full-at-last-drop".to_string() } else { "undelivered-after-last-drop".to_string() },
                     ),
